@@ -27,6 +27,7 @@ def main():
             "thorough_cmd": "./check %s thorough" % pid,
             "evidence_file": "/verif/evidence/%s.json" % pid,
             "engine": "affmc",
+            "replay_cmd_template": "./check replay {path}",
             "level_claimed": {"category": cat, "text": text, "design_ref": "DESIGN.md section %s" % ref},
             "level_note": note,
             "technique": tech,
@@ -37,7 +38,7 @@ def main():
         hooks_commits = [l.strip() for l in open(hp) if l.strip()]
     m = {
         "version": 1,
-        "setup_cmd": "./check build",
+        "setup_cmd": "./check build && ./check selftest quick",
         "hooks": {
             "guard": "cfg(affinitree_verif)",
             "enable": "RUSTFLAGS=--cfg affinitree_verif via /verif/mc/.cargo/config.toml (the engine crate depends on /repo by path, so every check rebuilds /repo's working tree with the hook on)",
